@@ -77,7 +77,7 @@ def units_for(prop, tier):
                 add(pre, [1, 2, 3], bcd_max=2)
         else:
             for pre in [None] + allpres:
-                add(pre, [1, 2, 3, 4], wall_s=3000, bcd_max=3)
+                add(pre, [1, 2, 3], wall_s=3000, bcd_max=2)     # (every I >= 1 is covered by the loop rule)
     elif prop == "C03":
         im = imem_opcodes()
         if tier == "quick":
@@ -85,8 +85,8 @@ def units_for(prop, tier):
                 add(pre, [1, 2], only=im, bcd_max=2)
         else:
             for pre in allpres:
-                add(pre, [1, 2, 3], wall_s=3000, bcd_max=3)
-            add(None, [1, 2, 3, 4], wall_s=3000, bcd_max=3)
+                add(pre, [1, 2, 3], wall_s=3000, bcd_max=2)
+            add(None, [1, 2, 3], wall_s=3000, bcd_max=2)
     # counted instructions for every I >= 1: loop rule at IL level (contracts/blockind.py)
     if prop == "C04":
         ipres = [None, 0x32, 0x25, 0x30] if tier == "quick" else [None] + allpres
